@@ -47,7 +47,7 @@ def run(ctx):
     res.trusted_base = common.TRUSTED_AE + ["reference builder in rules/c11.py (transcribed from the statement)"]
     res.assumptions = ["dict keys / matrix side array hold Vertex objects", "reading the result back with neighbors()/find_links follows from the C04/C09 tables applied to the created links"]
     res.bounded_only = True
-    h = H(ctx.src, [DICT_FN.rsplit(".", 1)[0], MAT_FN.rsplit(".", 1)[0], "edgegraph.builder.explicit"])
+    h = H(ctx.src, [DICT_FN.rsplit(".", 1)[0], MAT_FN.rsplit(".", 1)[0], "edgegraph.builder.explicit", "edgegraph.traversal.helpers"])
     fdict, fmat = h.fn(DICT_FN), h.fn(MAT_FN)
     n = 0
     # ---------------- load_adj_dict
@@ -81,7 +81,7 @@ def run(ctx):
                             want[x]["links"].append((lt, (k, x)))
                         if x not in want_members:
                             want_members.append(x)
-                why = compare(out, V, want, want_members, h)
+                why = compare(out, V, want, want_members, h) or readback(h, V, want, lt)
                 res.ob(why is None, sig=("dict", keys, rows, lt), sample={"builder": "load_adj_dict", "adjacency": {k: list(r) for k, r in zip(keys, rows)}, "linktype": lt})
                 if why:
                     feats = f"empty-row={any(len(r) == 0 for r in rows)},self-entry={any(k in r for k, r in zip(keys, rows))},repeated-entry={any(len(set(r)) < len(r) for r in rows)},value-not-a-key={any('e' in r for r in rows)}"
@@ -167,6 +167,25 @@ def run(ctx):
     common.vacuity(res, "BUILD-MATRIX", 40)
     res.analysed = common.analysed(ctx, [DICT_FN, MAT_FN, "edgegraph.builder.explicit.link_from_to"])
     res.explanation = "Bounded exhaustive abstract evaluation of both builders against the reference builder; every mismatch is a concrete input."
+
+
+def readback(h, V, want, lt):
+    """Reading the result back with neighbors() reproduces the input adjacency (its symmetric closure for an undirected type)."""
+    from rules import c04
+    nb = h.fn(c04.FN)
+    C = c04.consts(h)
+    for n, v in V.items():
+        exp = []
+        for cls, (p, q) in want[n]["links"]:
+            if cls == "UnDirectedEdge" or cls == "SymTwo":
+                exp.append(q if p == n else p)
+            elif p == n:
+                exp.append(q)
+        out = h.call(nb, v, C["FORWARD"], C["NEIGHBOR"])
+        got = [x.name for x in out.value.items] if out.kind == "return" else repr(out)
+        if got != exp:
+            return f"reading back neighbors({n}) gives {got}, the input adjacency (plus prior links) gives {exp}"
+    return None
 
 
 def compare(out, V, want, want_members, h):
